@@ -2833,7 +2833,18 @@ def groupby_reduce(
             preferred_method = "map-reduce"
             chunks_cohorts = {}
 
+        method_was_chosen = method is None
         method = _choose_method(method, preferred_method, agg, by_, nax)
+        if (
+            method_was_chosen
+            and reindex.blockwise is True
+            and method in ("blockwise", "cohorts")
+            and not any_by_dask
+            and agg.chunk[0] is not None
+        ):
+            # an explicit reindex=True is only compatible with "map-reduce"; do not pick
+            # a strategy automatically that would ignore it (blockwise) or refuse it (cohorts)
+            method = "map-reduce"
         if method == "cohorts" and not chunks_cohorts:
             # none of the expected groups is present: there is nothing to split into cohorts
             method = "map-reduce"
